@@ -364,12 +364,12 @@ Qed.
 
 (** ** the hypothesis on [taint_self] is necessary (finding D11) *)
 Definition cex_c : config :=
-  {| cf_size := Inf; cf_kind := KTask; cf_bad := false; cf_w := default_w;
+  {| cf_size := Inf; cf_kind := KTask; cf_bad := []; cf_w := default_w;
      cf_ecb := CbNone; cf_ccb := CbNone |}.
 
 (** a worker is resumed normally, cancels itself in its final segment, then returns *)
 Definition cex_tr : list label :=
-  [ LOp (OpApply 1 false false {| w_first := WSuspend; w_cancel := WPropagate |} CbNone CbNone None);
+  [ LOp (OpApply 1 [] false {| w_first := WSuspend; w_cancel := WPropagate |} CbNone CbNone None);
     LRun (HT (TM 0)); LRun (HT (TP 0)); LGo;
     LOp (OpFinish 0 FinReturn); LRun (HT (TP 0));
     LOp (OpCancel [0]); LGo ].
